@@ -21,7 +21,11 @@ EXPLANATION = (
     'list, default-aware); R-C05.4 clone() carries every attribute set in '
     '__init__ and does not share mutable containers with the original; '
     'R-C05.5 Diff.evolution never uses, inside one loop, a per-model value '
-    'bound only in a different, finished loop (stale loop variable).')
+    'bound only in a different, finished loop (stale loop variable); '
+    'R-C05.6 a signature class that defines __hash__ hashes only state its '
+    '__eq__ compares exactly (no repr of loosely compared dicts, no '
+    'identity), because model signatures compare their index/constraint '
+    'signatures through set().')
 NOT_DECIDED = (
     'Closure of diff -> hint -> simulate for all signature pairs (needs '
     'execution of the three functions on generated pairs).')
@@ -632,7 +636,83 @@ def r5_no_stale_loop_variable(ctx):
                'loop (%d uses checked)' % n_uses)
 
 
+def _self_reads(node, base='self') -> Set[str]:
+    return {n.attr for n in ast.walk(node)
+            if isinstance(n, ast.Attribute) and isinstance(n.value, ast.Name)
+            and n.value.id == base and isinstance(n.ctx, ast.Load)}
+
+
+def r6_hash_agrees_with_eq(ctx):
+    """Objects that compare equal must hash equal (they are compared through
+    set(...) in ModelSignature.__eq__): __hash__ may only depend on state
+    that __eq__ compares exactly (self.x == other.x / self.x is other.x as a
+    direct conjunct).  State compared loosely - dict.__eq__ (key order
+    ignored), 'both empty' equivalences - or not compared at all must not
+    reach the hash, directly or through repr(self)."""
+    ctx.rule('R-C05.6')
+    m = ctx.program.module(SIG)
+    n_classes = 0
+    for c in m.classes.values():
+        h = c.methods.get('__hash__')
+        eq = c.methods.get('__eq__')
+        if h is None or eq is None:
+            continue
+        n_classes += 1
+        reads = _self_reads(h.node)
+        via = []
+        for call in walk_no_nested(h.node):
+            if isinstance(call, ast.Call) and isinstance(call.func, ast.Name) \
+                    and call.func.id in ('repr', 'str') and call.args and \
+                    isinstance(call.args[0], ast.Name) and \
+                    call.args[0].id == 'self':
+                meth = c.find_method('__repr__' if call.func.id == 'repr'
+                                     else '__str__') or \
+                    c.find_method('__repr__')
+                if meth is not None:
+                    reads |= _self_reads(meth.node)
+                    via.append(meth.qualname)
+        for call in walk_no_nested(h.node):
+            if isinstance(call, ast.Call) and (
+                    (isinstance(call.func, ast.Name) and call.func.id == 'id')
+                    or (isinstance(call.func, ast.Attribute) and
+                        call.func.attr == '__hash__')):
+                reads.add('<identity>')
+        exact, loose = set(), set()
+        rets = [r for r in walk_no_nested(eq.node)
+                if isinstance(r, ast.Return) and r.value is not None]
+        for r in rets:
+            conj = r.value.values if isinstance(r.value, ast.BoolOp) and \
+                isinstance(r.value.op, ast.And) else [r.value]
+            for v in conj:
+                if isinstance(v, ast.Compare) and len(v.ops) == 1 and \
+                        isinstance(v.ops[0], (ast.Eq, ast.Is)) and \
+                        isinstance(v.left, ast.Attribute) and \
+                        isinstance(v.left.value, ast.Name) and \
+                        v.left.value.id == 'self' and \
+                        isinstance(v.comparators[0], ast.Attribute) and \
+                        v.comparators[0].attr == v.left.attr:
+                    exact.add(v.left.attr)
+                else:
+                    loose |= _self_reads(v)
+        exact -= loose
+        bad = sorted(reads - exact)
+        if not bad:
+            ctx.ok(h, '__hash__ depends only on state __eq__ compares '
+                   'exactly (%s)' % ', '.join(sorted(reads)) or '-')
+            continue
+        for a in bad:
+            how = 'compared loosely by __eq__ (key order / emptiness ' \
+                'ignored)' if a in loose else 'not compared by __eq__'
+            ctx.finding(h, None, '%s.__hash__ depends on self.%s%s, which is '
+                        '%s: equal signatures can hash differently, and '
+                        'ModelSignature.__eq__ compares them through set()'
+                        % (c.name, a, ' (through %s)' % ', '.join(via)
+                           if via else '', how), key='hash-depends-on:%s' % a)
+    ctx.floor('signature classes defining __eq__ and __hash__', n_classes, 2)
+
+
 def run(ctx):
+    r6_hash_agrees_with_eq(ctx)
     r5_no_stale_loop_variable(ctx)
     r1_diff_keys_consumed(ctx)
     r2_simulate_writes_what_diff_reads(ctx)
